@@ -68,8 +68,26 @@ Theorem C17_a64_call_sp : forall sym_addr sym_word cv callee args s0,
   exists regs_at mem_at, called s1 = Some (callee, regs_at, csp s0 - adj, mem_at).
 Proof. exact a64_call_sp. Qed.
 
-(* PARTIAL for ARM64: the placement of every argument at the bl (registers x0.., slots [sp + 8 j]) is not a
-   theorem yet; it is covered by the token correspondence and by the concrete-machine oracle. *)
+(* ARM64: when the bl executes, the i-th argument is in the i-th register of the convention while registers remain and the others
+   are in the slots [sp], [sp + 8], ... in order -- integers with their exact value (0 <= v < 2^64), symbols as their address *)
+Theorem C17_a64_arguments_at_the_call : forall sym_addr sym_word cv callee args s0,
+  a64_accepts cv = Ok tt -> NoDup (cregs cv) -> (forall a, In a args -> a64_wf sym_addr a) ->
+  let s1 := crun 8 sym_addr sym_word 0 (call_a64 cv callee args) s0 in
+  exists regs_at sp_at mem_at, called s1 = Some (callee, regs_at, sp_at, mem_at) /\
+    (forall i a r, nth_error args i = Some a -> nth_error (cregs cv) i = Some r -> regs_at r = a64_denotes sym_addr a) /\
+    (forall j a, nth_error args (length (cregs cv) + j) = Some a -> mem_at (sp_at + 8 * Z.of_nat j) = a64_denotes sym_addr a).
+Proof. exact a64_arguments_at_the_call. Qed.
+
+Example C17_a64_example :
+  (* two registers, four arguments: the third and fourth go to [sp] and [sp + 8] *)
+  let s1 := crun 8 (fun s => Z.of_nat s * 4096 + 24) (fun _ => 0) 0
+                 (call_a64 (mk_conv [0; 1]%nat 16 true 0) 9%nat [AInt 70000; ASym 3; AInt 5; AInt 18446744073709551615])
+                 (mk_cstate (fun _ => 0) 65536 (fun _ => 0) None) in
+  match called s1 with
+  | Some (f, regs, sp, mem) => f = 9%nat /\ regs 0%nat = 70000 /\ regs 1%nat = 12312 /\ sp = 65520 /\ mem 65520 = 5 /\ mem 65528 = 18446744073709551615
+  | None => False
+  end.
+Proof. vm_compute. repeat split. Qed.
 
 (* non-vacuity: Windows x64, five integer arguments, adjustment 8 *)
 Example C17_example_pe :
